@@ -64,7 +64,9 @@ class Lock:
 
 def lean_build(targets):
     """lake build of the given targets (modules / exe names). Returns (ok, log)."""
-    with Lock('lake'):
+    # one lock per property (builds of different properties touch disjoint files and may overlap)
+    m = re.search(r'C(\d\d)', ' '.join(targets), re.I)
+    with Lock('lake_' + (m.group(1) if m else 'all')):
         r = sh(['lake', 'build'] + targets, cwd=LEAN)
     return r.returncode == 0, r.stdout
 
